@@ -819,6 +819,11 @@ func (d *Decoder) decodeSliceTo(v reflect.Value) error {
 		return err
 	}
 
+	if i == 0 && v.Kind() == reflect.Slice && v.IsNil() {
+		// An empty list is an empty slice, not a nil one (which is what null.list gives).
+		v.Set(reflect.MakeSlice(v.Type(), 0, 0))
+	}
+
 	if i < v.Len() {
 		if v.Kind() == reflect.Array {
 			// Zero out any additional values.
